@@ -27,6 +27,14 @@ CHECKS = {
    technique="runtime monitoring: metamorphic monitor comparing every spelling's observable results with the canonical spelling's (no model)",
    text="Every labeled forest up to 5/6 nodes in 40 seeded / all 576 spellings (indent unit, bullet policy, # headings, CRLF, blank and whitespace-only lines incl. a leading one, final newline) plus random forests with bullet-like and blank-edged names: text, JSON, YAML, TOML, dry-run, walk rows, strict verify verdict and (for a few spellings) the mkdir snapshot must be identical to the canonical spelling's.",
    note="Heading spellings only for heading-safe root names; verify verdicts compared as nil-ness plus the set of message lines (map order is unspecified)."),
+ "C06": dict(level="exploration", design="DESIGN.md §4 C06",
+   technique="runtime monitoring: filesystem-snapshot conservation monitor (after - before in a fresh jail) against the model's path/kind set",
+   text="Every labeled forest up to 5/6 nodes over {a.go,b} with distinct roots x extension lists x target states (empty, missing nested, pre-populated, default via chdir) x 4 routes, every non-empty subset of roots pre-existing as file or directory, over-long names at every position and a target through a regular file, plus random forests: the jail's after-before snapshot must equal the model's paths and kinds, pre-existing entries must be untouched, ErrExistPath must leave the filesystem unchanged, OS refusals must be errors.",
+   note="Runs as root on tmpfs (or /verif/work); symlinks and permission refusals are not in the workload; syscall-level fault injection for mkdir is done on the CLI in C16."),
+ "C07": dict(level="exploration", design="DESIGN.md §4 C07",
+   technique="runtime monitoring: jail-confinement monitor (snapshot outside the target) + accept/reject monitor for hostile names over all mkdir routes",
+   text="Every forest shape up to 4/5 nodes with one hostile name at every position and random forests with several hostile names go through MkdirFromMarkdown/MkdirFromRoot x dry-run/real x simple/massive x extension lists x 3 target forms; nothing outside the target may change whatever the outcome, unambiguously invalid names must be rejected, and without massive a rejected tree must leave the target untouched.",
+   note="The jail nests the target five levels deep; massive calls are quiesced before the snapshot so late workers are judged on their own jail. A root named '.' is not required to be rejected."),
 }
 PENDING = {}
 ids = [json.loads(l)["id"] for l in open("/verif/properties.jsonl")]
